@@ -1,3 +1,298 @@
-import ScryerModel.Model.Unify
+import ScryerModel.Proofs.Unify
+/-
+C10 — Unification computes most general unifiers.
+
+Model: `Scryer.Unify.solve` (Model/Unify.lean), a work-list unification on finite terms that
+follows `Unifier::unify_internal` of src/machine/unify.rs (PDL order, variable binding,
+decomposition, constant comparison, occurs check at the binding points).  Entry points:
+  `unifyOC`  — `unify_with_occurs_check/2`, and `=/2` under `occurs_check = true`;
+  `unifyErr` — `=/2` under `occurs_check = error`;
+  `leavesFiniteTerms` — `=/2` under `occurs_check = false` creates a cyclic binding.
+A unifier is any function `θ : String → Term` with `t1.subst θ = t2.subst θ`; terms of the
+inductive type `Term` are finite, so "unifier" always means "finite unifier".
+All theorems hold for ALL terms (no size bound).
+-/
 namespace Scryer.C10
+open Scryer Scryer.Term Scryer.Unify
+
+/-- `θ` is a (finite) unifier of `t1` and `t2`. -/
+def Unifier (θ : String → Term) (t1 t2 : Term) : Prop := t1.subst θ = t2.subst θ
+
+/-! ### termination -/
+
+/-- Termination, step 1: dropping a solved equation decreases the measure
+    (number of distinct variables in the work list, size of the work list) lexicographically.
+    `solve` is defined by well-founded recursion on this measure, so it is a total function. -/
+theorem C10_termination_drop (s t : Term) (rest : Eqs) :
+    Prod.Lex (· < ·) (· < ·) (card (varsE rest), sizeE rest)
+      (card (varsE ((s, t) :: rest)), sizeE ((s, t) :: rest)) :=
+  measure_drop s t rest
+
+/-- Termination, step 2: binding `x ↦ u` (with `x` not in `u`) and substituting it through
+    the rest of the work list removes one distinct variable. -/
+theorem C10_termination_bind (x : String) (u s t : Term) (rest : Eqs) (hx : x ∉ u.vars)
+    (hsub : ∀ a ∈ u.vars, a ∈ varsE ((s, t) :: rest)) (hmem : x ∈ varsE ((s, t) :: rest)) :
+    Prod.Lex (· < ·) (· < ·) (card (varsE (substE x u rest)), sizeE (substE x u rest))
+      (card (varsE ((s, t) :: rest)), sizeE ((s, t) :: rest)) :=
+  measure_elim x u s t rest hx hsub hmem
+
+/-- Termination, step 3: replacing `f(as) = g(bs)` by the argument pairs adds no variable
+    and decreases the size. -/
+theorem C10_termination_decompose (f g : String) (as bs : List Term) (rest : Eqs) :
+    Prod.Lex (· < ·) (· < ·)
+      (card (varsE (as.zip bs ++ rest)), sizeE (as.zip bs ++ rest))
+      (card (varsE ((Term.str f as, Term.str g bs) :: rest)),
+        sizeE ((Term.str f as, Term.str g bs) :: rest)) :=
+  measure_decomp f g as bs rest
+
+/-- The run on any pair of terms ends in exactly one of three outcomes. -/
+theorem C10_total (t1 t2 : Term) :
+    (∃ σ, solve [(t1, t2)] [] = .ok σ) ∨ solve [(t1, t2)] [] = .clash ∨
+      solve [(t1, t2)] [] = .cyclic := by
+  cases h : solve [(t1, t2)] [] with
+  | ok σ => exact Or.inl ⟨σ, rfl⟩
+  | clash => exact Or.inr (Or.inl rfl)
+  | cyclic => exact Or.inr (Or.inr rfl)
+
+/-! ### soundness, most generality, completeness -/
+
+/-- Soundness: after a successful unification the two terms are identical. -/
+theorem C10_sound {t1 t2 : Term} {σ : Subst} (h : unifyOC t1 t2 = some σ) :
+    applyS σ t1 = applyS σ t2 :=
+  (solve_nil_ok (unify_eq_some.mp h)).solves (t1, t2) (by simp)
+
+/-- The result, read as a simultaneous substitution, is a unifier. -/
+theorem C10_result_is_unifier {t1 t2 : Term} {σ : Subst} (h : unifyOC t1 t2 = some σ) :
+    Unifier σ.toFun t1 t2 :=
+  unifies_pair.mp (solve_nil_ok (unify_eq_some.mp h)).unifies
+
+/-- Most generality, strong form: every unifier `θ` absorbs the computed `σ`
+    (`θ ∘ σ = θ` on all terms). -/
+theorem C10_most_general_absorbs {t1 t2 : Term} {σ : Subst} (h : unifyOC t1 t2 = some σ)
+    (θ : String → Term) (hθ : Unifier θ t1 t2) (t : Term) :
+    (applyS σ t).subst θ = t.subst θ :=
+  (solve_nil_ok (unify_eq_some.mp h)).mgu θ (unifies_pair.mpr hθ) t
+
+/-- Most generality: every unifier `θ` factors through the computed `σ`:
+    there is `ρ` with `θ = ρ ∘ σ` on all terms. -/
+theorem C10_most_general {t1 t2 : Term} {σ : Subst} (h : unifyOC t1 t2 = some σ)
+    (θ : String → Term) (hθ : Unifier θ t1 t2) :
+    ∃ ρ : String → Term, ∀ t, t.subst θ = (applyS σ t).subst ρ :=
+  ⟨θ, fun t => (C10_most_general_absorbs h θ hθ t).symm⟩
+
+/-- Completeness: if any finite unifier exists, unification with occurs check succeeds. -/
+theorem C10_complete {t1 t2 : Term} (h : ∃ θ, Unifier θ t1 t2) :
+    ∃ σ, unifyOC t1 t2 = some σ := by
+  obtain ⟨θ, hθ⟩ := h
+  cases hu : unifyOC t1 t2 with
+  | some σ => exact ⟨σ, rfl⟩
+  | none =>
+      exact absurd (unifies_pair.mpr hθ) (solve_nil_fail (unify_eq_none.mp hu) θ)
+
+/-- `unify_with_occurs_check/2` (and `=/2` with the flag `true`) fails iff no finite unifier
+    exists. -/
+theorem C10_unifyOC_fails_iff (t1 t2 : Term) :
+    unifyOC t1 t2 = none ↔ ¬∃ θ, Unifier θ t1 t2 := by
+  constructor
+  · rintro h ⟨θ, hθ⟩
+    exact solve_nil_fail (unify_eq_none.mp h) θ (unifies_pair.mpr hθ)
+  · intro h
+    cases hu : unifyOC t1 t2 with
+    | none => rfl
+    | some σ => exact absurd ⟨σ.toFun, C10_result_is_unifier hu⟩ h
+
+/-- … and succeeds iff one exists. -/
+theorem C10_unifyOC_succeeds_iff (t1 t2 : Term) :
+    (∃ σ, unifyOC t1 t2 = some σ) ↔ ∃ θ, Unifier θ t1 t2 :=
+  ⟨fun ⟨σ, h⟩ => ⟨σ.toFun, C10_result_is_unifier h⟩, C10_complete⟩
+
+/-- Success does not depend on the order of the two arguments. -/
+theorem C10_symmetric (t1 t2 : Term) :
+    (∃ σ, unifyOC t1 t2 = some σ) ↔ ∃ σ, unifyOC t2 t1 = some σ := by
+  rw [C10_unifyOC_succeeds_iff, C10_unifyOC_succeeds_iff]
+  constructor <;> rintro ⟨θ, h⟩ <;> exact ⟨θ, h.symm⟩
+
+/-- `\=/2` (negation of unifiability) succeeds iff no finite unifier exists. -/
+theorem C10_not_unifiable_iff (t1 t2 : Term) :
+    (unifyOC t1 t2).isNone = true ↔ ¬∃ θ, Unifier θ t1 t2 := by
+  rw [← C10_unifyOC_fails_iff, Option.isNone_iff_eq_none]
+
+/-! ### shape of the result -/
+
+/-- Idempotence: applying the result twice is the same as applying it once. -/
+theorem C10_idempotent {t1 t2 : Term} {σ : Subst} (h : unifyOC t1 t2 = some σ) (t : Term) :
+    applyS σ (applyS σ t) = applyS σ t :=
+  (solve_nil_ok (unify_eq_some.mp h)).idempotent t
+
+/-- Only variables of the two terms are bound. -/
+theorem C10_domain {t1 t2 : Term} {σ : Subst} (h : unifyOC t1 t2 = some σ) :
+    ∀ x ∈ σ.dom, x ∈ t1.vars ∨ x ∈ t2.vars := fun x hx =>
+  mem_varsE_pair.mp ((solve_nil_ok (unify_eq_some.mp h)).dom x hx)
+
+/-- No bystander is bound: a variable outside the two terms is left as it is. -/
+theorem C10_bystander_unbound {t1 t2 : Term} {σ : Subst} (h : unifyOC t1 t2 = some σ)
+    {x : String} (h1 : x ∉ t1.vars) (h2 : x ∉ t2.vars) : applyS σ (.var x) = .var x :=
+  applyS_var_of_not_mem_dom (fun hx => (C10_domain h x hx).elim h1 h2)
+
+/-- The result introduces no variable from outside: the variables of `σ t` are variables of
+    `t`, `t1` or `t2`. -/
+theorem C10_no_new_variables {t1 t2 : Term} {σ : Subst} (h : unifyOC t1 t2 = some σ)
+    (t : Term) (y : String) (hy : y ∈ (applyS σ t).vars) :
+    y ∈ t.vars ∨ y ∈ t1.vars ∨ y ∈ t2.vars :=
+  ((solve_nil_ok (unify_eq_some.mp h)).novars t y hy).imp id mem_varsE_pair.mp
+
+/-- Uniqueness up to mutual instantiation: any other most general unifier `τ` and the
+    computed `σ` are instances of each other (this is what the correspondence run relies on
+    when it compares the implementation's bindings with `σ` up to renaming). -/
+theorem C10_mgu_unique {t1 t2 : Term} {σ : Subst} (h : unifyOC t1 t2 = some σ)
+    (τ : String → Term) (hτ : Unifier τ t1 t2)
+    (hmg : ∀ θ, Unifier θ t1 t2 →
+      ∃ ρ : String → Term, ∀ t : Term, t.subst θ = (t.subst τ).subst ρ) :
+    (∃ ρ : String → Term, ∀ t, t.subst τ = (applyS σ t).subst ρ) ∧
+    (∃ ρ : String → Term, ∀ t, applyS σ t = (t.subst τ).subst ρ) := by
+  refine ⟨C10_most_general h τ hτ, ?_⟩
+  obtain ⟨ρ, hρ⟩ := hmg σ.toFun (C10_result_is_unifier h)
+  exact ⟨ρ, fun t => by rw [applyS_eq_subst]; exact hρ t⟩
+
+/-! ### the three settings of the `occurs_check` flag -/
+
+/-- flag `error`: the error is raised exactly when the run reaches a cyclic binding, and
+    then no finite unifier exists. -/
+theorem C10_error_flag_raises_iff (t1 t2 : Term) :
+    unifyErr t1 t2 = .error () ↔ solve [(t1, t2)] [] = .cyclic := by
+  unfold unifyErr; split <;> simp_all
+
+theorem C10_error_flag_no_unifier {t1 t2 : Term} (h : unifyErr t1 t2 = .error ()) :
+    ¬∃ θ, Unifier θ t1 t2 := by
+  rw [← C10_unifyOC_fails_iff]
+  have := (C10_error_flag_raises_iff t1 t2).mp h
+  simp [unifyOC, unify, this]
+
+/-- flag `error`: when no error is raised the answer is the one of
+    `unify_with_occurs_check/2`. -/
+theorem C10_error_flag_agrees {t1 t2 : Term} {r : Option Subst} (h : unifyErr t1 t2 = .ok r) :
+    r = unifyOC t1 t2 := by
+  unfold unifyErr at h
+  unfold unifyOC unify
+  split at h <;> simp_all
+
+/-- flag `false`: the run leaves the finite terms exactly at the points where flag `error`
+    raises the error. -/
+theorem C10_false_flag_leaves_iff (t1 t2 : Term) :
+    leavesFiniteTerms t1 t2 = true ↔ unifyErr t1 t2 = .error () := by
+  rw [C10_error_flag_raises_iff]
+  unfold leavesFiniteTerms; split <;> simp_all
+
+/-- If the two terms have a finite unifier, no cyclic binding ever arises: the three flag
+    settings and `unify_with_occurs_check/2` all compute the same most general unifier. -/
+theorem C10_flag_irrelevant_when_unifiable {t1 t2 : Term} (h : ∃ θ, Unifier θ t1 t2) :
+    leavesFiniteTerms t1 t2 = false ∧ ∃ σ, unifyOC t1 t2 = some σ ∧
+      unifyErr t1 t2 = .ok (some σ) := by
+  obtain ⟨σ, hσ⟩ := C10_complete h
+  have hs : solve [(t1, t2)] [] = .ok σ := unify_eq_some.mp hσ
+  refine ⟨by simp [leavesFiniteTerms, hs], σ, hσ, by simp [unifyErr, hs]⟩
+
+/-- If the run ends in a clash, every flag setting fails (no error). -/
+theorem C10_clash_fails {t1 t2 : Term} (h : solve [(t1, t2)] [] = .clash) :
+    unifyOC t1 t2 = none ∧ unifyErr t1 t2 = .ok none ∧ leavesFiniteTerms t1 t2 = false := by
+  simp [unifyOC, unify, unifyErr, leavesFiniteTerms, h]
+
+/-! ### the work list in general -/
+
+/-- The same facts for an arbitrary work list: on success the accumulated substitution solves
+    every equation, is absorbed by every unifier, and binds only variables of the list; on
+    failure the list has no unifier. -/
+theorem C10_worklist_spec (eqs : Eqs) :
+    (∀ σ, unify eqs [] = some σ → Good σ eqs) ∧
+    (unify eqs [] = none → ∀ θ, ¬Unifies θ eqs) :=
+  ⟨fun _ h => solve_nil_ok (unify_eq_some.mp h),
+   fun h θ => solve_nil_fail (unify_eq_none.mp h) θ⟩
+
+/-- The accumulator is only extended: bindings made earlier are kept. -/
+theorem C10_accumulator_extended (eqs : Eqs) (acc σ : Subst) (h : unify eqs acc = some σ) :
+    ∃ δ, σ = δ ++ acc ∧ Good δ eqs :=
+  (solve_spec eqs acc).1 σ (unify_eq_some.mp h)
+
+/-! ### numbers, strings -/
+
+/-- Integers unify by value. -/
+theorem C10_int_by_value (a b : Int) : (∃ σ, unifyOC (.int a) (.int b) = some σ) ↔ a = b := by
+  rw [C10_unifyOC_succeeds_iff]
+  simp [Unifier]
+
+/-- A float never unifies with an integer, nor an integer with a float. -/
+theorem C10_float_int_never (a : Int) (b : Nat) :
+    unifyOC (.int a) (.flt b) = none ∧ unifyOC (.flt b) (.int a) = none := by
+  rw [C10_unifyOC_fails_iff, C10_unifyOC_fails_iff]
+  simp [Unifier]
+
+/-- A rational never unifies with an integer or a float. -/
+theorem C10_rat_int_never (n : Int) (d : Nat) (a : Int) (b : Nat) :
+    unifyOC (.rat n d) (.int a) = none ∧ unifyOC (.rat n d) (.flt b) = none := by
+  rw [C10_unifyOC_fails_iff, C10_unifyOC_fails_iff]
+  simp [Unifier]
+
+/-- Floats unify iff they have the same bits; rationals iff same numerator and denominator. -/
+theorem C10_float_by_bits (a b : Nat) : (∃ σ, unifyOC (.flt a) (.flt b) = some σ) ↔ a = b := by
+  rw [C10_unifyOC_succeeds_iff]
+  simp [Unifier]
+
+theorem C10_rat_by_value (n m : Int) (d e : Nat) :
+    (∃ σ, unifyOC (.rat n d) (.rat m e) = some σ) ↔ n = m ∧ d = e := by
+  rw [C10_unifyOC_succeeds_iff]
+  simp [Unifier]
+
+/-- Strings are lists of one-character atoms: a string and the list of its characters are the
+    same term, so they unify with the empty substitution being enough. -/
+theorem C10_string_is_char_list :
+    Term.ofChars ['a', 'b'] = Term.ofList [.atom "a", .atom "b"] ∧
+    ∃ σ, unifyOC (Term.ofChars ['a', 'b']) (.str "." [.var "H", .var "T"]) = some σ := by
+  refine ⟨rfl, C10_complete ⟨fun x => if x = "H" then .atom "a" else Term.ofChars ['b'], ?_⟩⟩
+  simp [Unifier, Term.ofChars, Term.ofList, Term.cons, Term.nil]
+
+/-! ### non-vacuity: each hypothesis is satisfiable and each outcome is reached -/
+
+/-- success with two bindings: `f(X, b) = f(a, Y)`. -/
+example : ∃ σ, unifyOC (.str "f" [.var "X", .atom "b"]) (.str "f" [.atom "a", .var "Y"]) = some σ :=
+  C10_complete ⟨fun x => if x = "X" then .atom "a" else .atom "b", by simp [Unifier]⟩
+
+/-- the computed substitution for `f(X, b) = f(a, Y)` really is `Y ↦ b, X ↦ a`. -/
+example : solve [(.str "f" [.var "X", .atom "b"], .str "f" [.atom "a", .var "Y"])] []
+    = .ok [("Y", .atom "b"), ("X", .atom "a")] := by
+  simp [solve, substE, subst1, single, Term.vars, Term.subst]
+
+/-- cyclic outcome: `X = f(X)` (flag `true`: failure; flag `error`: error). -/
+example : solve [(.var "X", .str "f" [.var "X"])] [] = .cyclic := by
+  simp [solve, Term.vars, Term.varsL]
+
+example : unifyErr (.var "X") (.str "f" [.var "X"]) = .error () := by
+  simp [unifyErr, solve, Term.vars, Term.varsL]
+
+example : ¬∃ θ, Unifier θ (.var "X") (.str "f" [.var "X"]) := by
+  rw [← C10_unifyOC_fails_iff]
+  simp [unifyOC, unify, solve, Term.vars, Term.varsL]
+
+/-- clash outcome: `f(a) = f(b)` and `f(a) = g(a)`. -/
+example : solve [(.str "f" [.atom "a"], .str "f" [.atom "b"])] [] = .clash := by
+  simp [solve, constEq]
+
+example : solve [(.str "f" [.atom "a"], .str "g" [.atom "a"])] [] = .clash := by
+  simp [solve]
+
+/-- clash before cycle and cycle before clash are told apart (depth-first, left to right):
+    `f(a, X) = f(b, g(X))` fails, `f(X, a) = f(g(X), b)` raises the error under flag `error`. -/
+example : unifyErr (.str "f" [.atom "a", .var "X"]) (.str "f" [.atom "b", .str "g" [.var "X"]])
+    = .ok none := by
+  simp [unifyErr, solve, constEq]
+
+example : unifyErr (.str "f" [.var "X", .atom "a"]) (.str "f" [.str "g" [.var "X"], .atom "b"])
+    = .error () := by
+  simp [unifyErr, solve, Term.vars, Term.varsL]
+
+/-- a bystander exists: `Z` is not bound by `X = a`. -/
+example : ∃ σ, unifyOC (.var "X") (.atom "a") = some σ ∧ applyS σ (.var "Z") = .var "Z" := by
+  obtain ⟨σ, h⟩ := C10_complete (t1 := .var "X") (t2 := .atom "a")
+    ⟨fun _ => .atom "a", by simp [Unifier]⟩
+  exact ⟨σ, h, C10_bystander_unbound h (by simp) (by simp)⟩
+
 end Scryer.C10
